@@ -5,6 +5,7 @@ a message is accepted only at the length its downlink format prescribes; determi
 Model: Rs1090/Model/Decode/*.lean (`Message.tryFrom`), tied to the Rust decoder by the
 `dec` correspondence check over the whole shape space (DF × TC × subtype × version × lengths).
 -/
+import Rs1090.Proofs.Decode.GenBds
 import Rs1090.Model.Decode.Message
 import Rs1090.Proofs.Decode.Message
 import Rs1090.Proofs.Decode.Checksum
@@ -241,5 +242,44 @@ theorem deterministic (bs : List Nat) : tryFrom bs = tryFrom bs := rfl
 /-! sanity anchors (tests): frames of the repository's own suite -/
 example : (tryFrom [0x8d,0x40,0x6b,0x90,0x20,0x15,0xa6,0x78,0xd4,0xd2,0x20,0xaa,0x4b,0xda]).isOk = true := by
   decide +kernel
+
+
+/-! ### the BDS 5,0 / 6,0 field readers are TRANSLATED from the source on every run (gen/extractors/bdsfns.py →
+`Gen/BdsFns.lean`) and proved equal, as `Outcome`s — value, `Err` and panic alike — to the model's conversion
+functions on every value of the bits read (`Proofs/Decode/GenBds.lean`; spelled out in Props/C08.lean).
+`rollOk s g v` is `decide (Gen.BdsFns.Bds50.read_roll s g v = scaled 45 256 (Model.Bds50.roll s g v))`, and so on.
+These replace the digest pins of the eight `fn` items: a rewrite that keeps the values passes, a behavioural edit
+fails here by name. -/
+
+open Rs1090.Proofs.GenBds in
+theorem bds50_readers_as_modelled :
+    (∀ s g v, g < 2 ^ 1 → v < 2 ^ 9 → rollOk s g v = true) ∧
+    (∀ s g v, g < 2 ^ 1 → v < 2 ^ 10 → trackOk s g v = true) ∧
+    (∀ s v, v < 2 ^ 10 → gsOk s v = true) ∧
+    (∀ (n : Option Int) s g v, g < 2 ^ 1 → v < 2 ^ 9 → rateOk n s g v = true) :=
+  ⟨bds50_roll, bds50_track, bds50_groundspeed, bds50_rate⟩
+
+open Rs1090.Proofs.GenBds in
+theorem bds60_readers_as_modelled :
+    (∀ s g v, g < 2 ^ 1 → v < 2 ^ 10 → headingOk s g v = true) ∧
+    (∀ s v, v < 2 ^ 10 → iasOk s v = true) ∧
+    (∀ (i : Option Nat) s v, v < 2 ^ 10 → machOk i s v = true) ∧
+    (∀ s g v, g < 2 ^ 1 → v < 2 ^ 9 → verticalOk s g v = true) :=
+  ⟨bds60_heading, bds60_ias, bds60_mach, bds60_vertical⟩
+
+/-- the predicates are not vacuous: a disagreeing pair is rejected -/
+example : decide (Gen.BdsFns.Bds50.read_roll true 0 4 = Rs1090.Proofs.GenBds.scaled 45 128 (Model.Bds50.roll true 0 4)) = false := by
+  decide +kernel
+
+
+open Rs1090.Proofs.GenBds in
+theorem bds40_readers_as_modelled :
+    (∀ s v, v < 2 ^ 12 → selectedOk s v = true) ∧ (∀ s v, v < 2 ^ 12 → qnhOk s v = true) :=
+  ⟨bds40_selected, bds40_qnh⟩
+
+open Rs1090.Proofs.GenBds in
+theorem bds44_readers_as_modelled :
+    (∀ s v, v < 2 ^ 11 → pressure44Ok s v = true) ∧ (∀ s v, v < 2 ^ 6 → humidityOk s v = true) :=
+  ⟨bds44_pressure, bds44_humidity⟩
 
 end Rs1090.Props.C01
